@@ -166,6 +166,95 @@ def sha_dispatch(F, b):
     return None
 
 
+REV_SETS = {"r2": {2}, "r3_r4": {3, 4}, "r4": {2, 3, 4}, "r5": {5}, "r6": {5, 6}}
+
+
+def revision_dispatch(ctx, F):
+    """every revision-specific method (`*_r2`, `*_r3_r4`, `*_r4`, `*_r6`) that a general method of PasswordAlgorithm
+    selects is reached for exactly the revisions its algorithm is defined for (value-set analysis over self.revision)."""
+    import byteset
+    n = 0
+    for pth, b in sorted(F.bodies.items()):
+        fn = F.canon_of(b)
+        if not fn.startswith("PasswordAlgorithm::") or b.kind == "Closure" or re.search(r"_r\d(_r\d)*$", fn):
+            continue
+        tgt = [c for c in b.calls if c.local and re.search(r"PasswordAlgorithm::\w+?_(r\d(?:_r\d)*)$", c.cname)]
+        if not tgt:
+            continue
+
+        def is_var(o, b=b):
+            p = op_place(o)
+            if p is None:
+                return False
+            rp = b.root_place(p, through_names=True)
+            pr = [e for e in rp["p"] if e != "*"]
+            return rp["l"] == 1 and len(pr) == 1 and isinstance(pr[0], dict) and pr[0].get("n") == "revision"
+        bv = byteset.ByteVar(F, b, is_var)
+        R = bv.reach_sets()
+        for c in tgt:
+            suf = re.search(r"_(r\d(?:_r\d)*)$", c.cname).group(1)
+            want = REV_SETS.get(suf)
+            got = set(R.get(c.bb, frozenset())) & set(range(0, 16))
+            n += 1
+            ctx.ob("R-TABLE", "revision-dispatch|%s|%s" % (fn, c.cname.rsplit("::", 1)[-1]), want is not None and got == want and not bv.unknown,
+                   "%s calls %s for revisions %s" % (fn, c.cname.rsplit("::", 1)[-1], sorted(got)), b.where(c.ln),
+                   what="%s selects %s for revisions %s; the algorithm it implements is defined for revisions %s"
+                        % (fn, c.cname.rsplit("::", 1)[-1], sorted(got), sorted(want or [])))
+    ctx.floor("R-TABLE", "revision dispatch sites", n, 8)
+
+
+def fields_read_through_self(F, callee, adt_suffix, _memo={}):
+    """names of the fields of `adt` that the callee or anything it calls touches."""
+    key = (id(F), callee.path, adt_suffix)
+    if key in _memo:
+        return _memo[key]
+    out = set()
+    for q in F.reach([callee.path]):
+        qb = F.bodies[q]
+
+        def walk(x):
+            if isinstance(x, dict):
+                if "f" in x and "adt" in x and x["adt"].endswith(adt_suffix) and x.get("n"):
+                    out.add(x["n"])
+                for v in x.values():
+                    walk(v)
+            elif isinstance(x, list):
+                for v in x:
+                    walk(v)
+        walk(qb.blocks)
+    _memo[key] = out
+    return out
+
+
+def set_before_read(ctx, F, fn, adt_suffix="PasswordAlgorithm"):
+    """in `fn`, a PasswordAlgorithm value is filled in step by step; a method called on it must not read a field that is
+    only assigned later (Algorithm 9 computes O/OE from the 48-byte U string: U must be in place first)."""
+    n = 0
+    for b in F.fns(fn):
+        for c in b.calls:
+            if not (c.local and c.name in F.bodies and c.args):
+                continue
+            o = lib.origin_local(F, b, c.args[0])
+            if o is None or o[0] is not b or o[2] or not b.lty(o[1]).endswith(adt_suffix):
+                continue
+            L = o[1]
+            reads = fields_read_through_self(F, F.bodies[c.name], adt_suffix)
+            late = []
+            for bi, si, s_ in b.stmts():
+                if "lhs" not in s_ or s_["lhs"]["l"] != L or not s_["lhs"]["p"]:
+                    continue
+                e = s_["lhs"]["p"][0]
+                if isinstance(e, dict) and e.get("n") in reads and (b.can_reach(c.bb, bi) and not (bi == c.bb)):
+                    late.append((e["n"], s_["ln"]))
+            n += 1
+            ctx.ob("R-ORDER", "set-before-read|%s|%s@%d" % (fn, c.cname.rsplit("::", 1)[-1], n), not late,
+                   "%s reads only fields that are already assigned" % c.cname.rsplit("::", 1)[-1], b.where(c.ln),
+                   what="%s calls %s, which reads %s of the value under construction, before the assignment at line %s: the value is "
+                        "computed from the placeholder (e.g. Algorithm 9 hashes the owner password without the U string)"
+                        % (fn, c.cname.rsplit("::", 1)[-1], sorted({x for x, _ in late}), sorted({l for _, l in late})))
+    return n
+
+
 def r_dead(F, b):
     """compiler temporaries mutably borrowed as a call argument and never read afterwards: [(callee, term, line)]."""
     out = []
@@ -238,6 +327,9 @@ def run(ctx):
            "Algorithm 2.B(d): residue 0/1/2 of the byte sum of E[..16] selects SHA-256/384/512 (%s)" % (sd[1] if sd else "-"), F.fn("PasswordAlgorithm::compute_hash").where(),
            what="Algorithm 2.B(d): the selection of SHA-256/384/512 by (sum of the first 16 bytes of E) mod 3 is not what the code does (mapping %s, selector %s)"
                 % ((sd[0], sd[2][:120]) if sd else ("none", "none")))
+    revision_dispatch(ctx, F)
+    nsr = set_before_read(ctx, F, "<EncryptionState as TryFrom>::try_from")
+    ctx.floor("R-ORDER", "method calls on the PasswordAlgorithm under construction", nsr, 4)
     # permission bits
     pv = F.fn("Permissions::p_value")
     ints = sorted(set(int(k["int"]) for bi, si, s in pv.stmts() if s.get("rv") for o in ([s["rv"].get("o")] if s["rv"]["k"] in ("use", "cast") else [s["rv"].get("a"), s["rv"].get("b")] if s["rv"]["k"] == "bin" else [])
